@@ -30,6 +30,8 @@ def write_replay(pid, ob):
     path = os.path.join(REPLAYS, "%s.%d.json" % (ob.name, int(time.time())))
     head, dirty = repo_head()
     rp = getattr(ob, "replay", None) or {"kind": ob.backend, "confirmed": False}
+    if getattr(ob, "algebraic_witness", None):
+        rp["algebraic_witness"] = ob.algebraic_witness
     doc = {"property": pid, "obligation": ob.name, "backend": ob.backend, "function": ob.fn,
            "clause": ob.clause, "unit": getattr(ob, "unit", {}).get("name") if isinstance(getattr(ob, "unit", None), dict) else getattr(ob, "unit_name", None),
            "harness": getattr(ob, "harness", None),
